@@ -121,18 +121,24 @@ VERDICT_RE = re.compile(r'^"VERDICT (-?\d+) (C\d+) (.*)"$', re.M)
 JUDGED_RE = re.compile(r'<<"JUDGED", (\d+), (\d+)>>')
 
 
+PART_BYTES = 10 << 20      # a TLC process deserialises its whole part: keep parts small, run NCPU of them at a time
+
+
 def split_file(path, n, work, tag):
-    lines = open(path).readlines()
-    n = max(1, min(n, len(lines)))
-    parts = []
-    for i in range(n):
-        chunk = lines[i::n]        # round-robin: expensive cases cluster in the generators' output
-        if not chunk:
-            continue
-        p = os.path.join(work, "%s.part%d.ndjson" % (tag, i))
-        open(p, "w").writelines(chunk)
-        parts.append(p)
-    return parts, len(lines)
+    """Round-robin split (expensive cases cluster in the generators' output) into at least n parts of at most ~PART_BYTES."""
+    total, size = 0, os.path.getsize(path)
+    with open(path, "rb") as f:
+        for _ in f:
+            total += 1
+    n = max(1, min(max(n, -(-size // PART_BYTES)), total))
+    paths = [os.path.join(work, "%s.part%d.ndjson" % (tag, i)) for i in range(n)]
+    outs = [open(p, "wb") for p in paths]
+    with open(path, "rb") as f:
+        for i, line in enumerate(f):
+            outs[i % n].write(line)
+    for o in outs:
+        o.close()
+    return (paths if total else []), total
 
 
 def judge(work, module, trace, env_file, open_findings=(), shards=None, tag="j", timeout=3600, extra_consts="", defs=""):
